@@ -41,7 +41,7 @@ ANCHORS = [
     "stereomolgraph.graphs.scrg:StereoCondensedReactionGraph.from_graphs#scrg.set_bond_stereo_change(formed=p_stereo, broken=r_stereo)",
 ]
 REQUIRED_ANCHORS = ANCHORS
-REQUIRED = ["triples", "with_ts", "without_ts", "reversals", "double_reversals", "fleeting_bonds", "fleeting_stereo", "ts_only_descriptors", "scale_cases"]
+REQUIRED = ["triples", "with_ts", "without_ts", "reversals", "double_reversals", "fleeting_bonds", "fleeting_stereo", "ts_only_descriptors", "scale_cases", "numpy_id_descriptors"]
 
 
 def _bonds(rng, ids, max_deg=4, p=0.35):
@@ -169,9 +169,16 @@ def check_case(ctx, case):
         t = pg_from_json(case["ts"]) if case["ts"] else None
     brng = random.Random(case["bseed"])
     try:  # reactant, product and TS reach from_graphs through independent, seed-chosen provenances (different internal orders)
-        gr, via = build_case(r, case["bseed"])
-        gp, _ = build_case(p, case["bseed"] // 15)
-        gt = build_case(t, case["bseed"] // 225)[0] if t else None
+        if stereo and "scale" not in case and case["bseed"] % 7 == 0:
+            # descriptors whose ligand order was computed with numpy: the ids inside them are np.int64 scalars
+            gr, gp = build(r, rng=brng, numpy_parity="ids"), build(p, rng=brng, numpy_parity="ids")
+            gt = build(t, rng=brng, numpy_parity="ids") if t else None
+            via = "direct"
+            ctx.count("numpy_id_descriptors")
+        else:
+            gr, via = build_case(r, case["bseed"])
+            gp, _ = build_case(p, case["bseed"] // 15)
+            gt = build_case(t, case["bseed"] // 225)[0] if t else None
     except DerivationWrong as e:
         ctx.violate(f"C08/derived-input-differs/{cls}/{e.via}", f"deriving an input graph: {e}", case)
         ctx.case()
